@@ -37,7 +37,7 @@ DESIGN_REF = "DESIGN.md section 6, C06"
 EXEC = "arn:aws:states:local:0123456789:execution:m:e0"
 FUNCS = {"echo": ["echo"], "wrap": ["wrap"], "boom": ["fail", "Boom"], "bang": ["fail", "Bang"], "slow3": ["slow", 3], "sib": ["wrap"], "sibslow": ["slow", 2],
          "flaky": ["flaky", ["Flaky"]], "failodd": ["fail_if", "i", 1], "failall": ["fail", "Boom"],
-         "slowboom": ["seq", [["err", "Boom", "late", {"latency": 2}]]], "inner": ["fail", "Inner.Err"], "zero": ["const", 0], "empty": ["const", {}], "nil": ["const", []]}
+         "slowboom": ["seq", [["err", "Boom", "late", {"latency": 2}]]], "inner": ["fail", "Inner.Err"], "zero": ["const", 0], "empty": ["const", {}], "nil": ["const", []], "mute": ["silent"]}
 
 
 def sibling_body(rng, names, kind=None):
@@ -51,6 +51,9 @@ def sibling_body(rng, names, kind=None):
         first, handler = names(), names()
         return {"StartAt": first, "States": {first: dict(F.T("inner"), Catch=[{"ErrorEquals": ["Inner.Err"], "ResultPath": "$.caught", "Next": handler}], End=True),
                                              handler: dict(F.T("sibslow"), End=True)}}
+    if kind == "timed":
+        # a sibling waiting for a worker that never answers, under its own TimeoutSeconds: its timer fires after the other branch has failed
+        return F.chain([(names(), dict(F.T("mute"), TimeoutSeconds=rng.randint(2, 4)))])
     if kind == "task":
         return F.chain([(names(), F.task(rng, "sib"))])
     if kind == "chain":
@@ -77,7 +80,7 @@ def failing_body(rng, names, how=None, delay=None):
     return F.chain(pre + [(names(), F.T("sib")), (names(), F.T("boom"))])
 
 
-def make(rng, kind, n, failing, handlers, sib_kind=None, fail_delay=None, siblings_done_first=False, late_failure=False):
+def make(rng, kind, n, failing, handlers, sib_kind=None, fail_delay=None, siblings_done_first=False, late_failure=False, recover=None):
     """failing: set of branch/item indices that fail.  siblings_done_first: siblings are instantaneous and the failure comes late."""
     names = F.Names()
     if kind == "Parallel":
@@ -109,7 +112,7 @@ def make(rng, kind, n, failing, handlers, sib_kind=None, fail_delay=None, siblin
     if handlers in ("catch", "retry+catch"):
         h["Catch"] = [{"ErrorEquals": ["States.ALL"], "Next": "Recover", "ResultPath": "$.err"}]
     st.update(h)
-    recover = rng.choice(["pass", "task", "slowtask"]) if not late_failure else "slowtask"
+    recover = recover or (rng.choice(["pass", "task", "slowtask"]) if not late_failure else "slowtask")
     states = [("Pre", F.P()), ("Fan", st), ("After", F.T("echo") if rng.random() < 0.5 else F.P()), ("Done", {"Type": "Succeed"})]
     asl = F.chain(states)
     asl["States"]["Recover"] = F.P(ResultPath="$.recovered", Result=True, Next="Done") if recover == "pass" else \
@@ -160,7 +163,9 @@ class FailureWatch(object):
             return
 
 
-def judge(ctx, run, meta, sched, outs):
+def mechanisms(run, meta):
+    """-> (mech(step, rule, t) -> listed finding id | None, handled, live): the trace predicates of this family's listed findings (also used by C02 for
+    the same scenarios)."""
     w = run.world
     watch = run.watch
     handled = meta["handlers"] != "none" and bool(meta["failing"])
@@ -168,11 +173,6 @@ def judge(ctx, run, meta, sched, outs):
     live = False
     for ev in watch.events:
         live = live or (ev["carriers"] >= (1 if ev["terminal"] else 2))
-    if meta["failing"]:
-        ctx.count("runs_with_live_siblings_at_failure" if live else "runs_with_no_live_sibling_at_failure")
-        if live:
-            ctx.nontrivial([_sched.scn_key(run.scn), _sched.schedule_hash(run)])
-    m1_steps = {s["step"] for s in w.steps if C.is_delegate_step(run, s["step"])}
     run.m1 = False
 
     def mech(v_step=None, rule="", v_t=None):
@@ -197,6 +197,17 @@ def judge(ctx, run, meta, sched, outs):
         if not handled and live and len(meta["failing"]) >= 2 and rule.startswith(("N-second-terminal", "R-terminal-record-changed", "H-multiple", "H-events-after", "H-terminal-event")):
             return "several-unhandled-failures-end-the-execution-twice"
         return None
+    return mech, handled, live
+
+
+def judge(ctx, run, meta, sched, outs):
+    w = run.world
+    watch = run.watch
+    mech, handled, live = mechanisms(run, meta)
+    if meta["failing"]:
+        ctx.count("runs_with_live_siblings_at_failure" if live else "runs_with_no_live_sibling_at_failure")
+        if live:
+            ctx.nontrivial([_sched.scn_key(run.scn), _sched.schedule_hash(run)])
     wit = lambda extra: S.witness_of(run, dict(extra, meta=meta, schedule_name=sched, failure_events=watch.events))
     for v in run.violations:
         r = v["rule"]
@@ -303,6 +314,19 @@ def run(ctx):
                         if late:
                             ctx.count("late_failing_sibling_scenarios")
                         explore(ctx, scn, meta, n_random, "c06-%d" % i)
+    # siblings under their own TimeoutSeconds whose worker never answers: the timer fires after the failure (while the Catcher's path is still
+    # running, or after the execution has ended)
+    for n in (2, 3):
+        for handlers in ("none", "catch", "retry", "retry+catch"):
+            for recover in ("slowtask", "pass"):
+                for variant in range(ctx.pick(1, 3)):
+                    i += 1
+                    if not ctx.mine(i):
+                        continue
+                    rng = ctx.rng("timed", n, handlers, recover, variant)
+                    scn, meta = make(rng, "Parallel", n, {0}, handlers, sib_kind="timed", fail_delay=rng.choice([None, 1]), recover=recover)
+                    ctx.count("timed_sibling_scenarios")
+                    explore(ctx, scn, dict(meta, family="fanout-failure-timed-sibling"), n_random, "c06t-%d" % i)
     # exhaustive schedules for small fan-outs
     for j, (kind, n, failing, handlers) in enumerate([("Parallel", 2, {0}, "none"), ("Parallel", 2, {0}, "catch"), ("Parallel", 3, {1}, "none"), ("Map", 2, {0}, "none"),
                                                       ("Map", 2, {1}, "retry"), ("Parallel", 2, {0, 1}, "none"), ("Map", 3, {0, 2}, "catch")]):
